@@ -502,7 +502,82 @@ def r6_start_node_used(ctx):
         raise AnalysisError('x12context: only %d uses of _get_start_node found' % n)
 
 
+class _EleM(object):
+    _sa_model = True
+
+    def __init__(self, v):
+        self.v = v
+
+    def __repr__(self):
+        return self.v
+
+
+class _CompM(object):
+    """model of segment.Composite: a list of element values behind len / [i] / [i] = / .elements"""
+    _sa_model = True
+
+    def __init__(self, text, sep=':'):
+        self.elements = [_EleM(x) for x in (text.split(sep) if sep else [text])]
+
+    def __len__(self):
+        return len(self.elements)
+
+    def __getitem__(self, i):
+        return self.elements[i]
+
+    def __setitem__(self, i, v):
+        self.elements[i] = v
+
+    def values(self):
+        return [e.v for e in self.elements]
+
+
+def r8_set_changes_one_value(ctx):
+    """Segment.set decided by constant propagation on a segment with a simple and a three-component element, for
+    designators of an element, of each component (the first one too), of a component beyond the last and of an element
+    beyond the last: the named value becomes the new one, every other element and every other component keeps its
+    value, missing positions in between are padded with empty values."""
+    from ..absint import explore
+    fn = ctx.func('segment', 'Segment.set')
+    g = ctx.cfg(fn)
+    bad = []
+    cases = [('01', 0, None), ('02', 1, None), ('02-1', 1, 0), ('02-2', 1, 1), ('02-3', 1, 2), ('02-5', 1, 4), ('04', 3, None), ('04-2', 3, 1), ('01-1', 0, 0)]
+    for rd, ei, ci in cases:
+        elems = (_CompM('A'), _CompM('B:C:D'))
+        before = [c.values() for c in elems]
+        funcs = {'self._parse_refdes': lambda r, ei=ei, ci=ci: (ei, ci), 'Composite': lambda t, sep=None: _CompM(t, ':'), 'Element': lambda t: _EleM(t)}
+        fin = []
+
+        def on_node(nd, env, g=g):
+            if nd is g.exit:
+                fin.append(env.get('self.elements'))
+
+        def unk(nd, env):
+            raise AnalysisError('Segment.set: a test cannot be decided for %s: %s' % (rd, norm(nd.ast)))
+        explore(g, {'self.elements': elems, 'self.seg_id': 'REF', 'self.subele_term': ':', 'self.ele_term': '*', 'ref_des': rd, 'val': 'NEW'},
+                funcs=funcs, on_node=on_node, on_unknown=unk)
+        want = [list(v) for v in before]
+        while len(want) <= ei:
+            want.append([''])
+        if ci is None:
+            want[ei] = ['NEW']
+        else:
+            while len(want[ei]) <= ci:
+                want[ei].append('')
+            want[ei][ci] = 'NEW'
+        outs = []
+        for f in fin:
+            if isinstance(f, tuple) and all(isinstance(c, _CompM) for c in f):
+                outs.append([c.values() for c in f])
+            else:
+                outs.append('undetermined')
+        if not outs or any(o != want for o in outs):
+            bad.append("set('%s', 'NEW') on REF*A*B:C:D leaves %s, expected %s" % (rd, outs[0] if outs else 'no result', want))
+    yield Ob('segment:Segment.set changes the named value and nothing else', not bad, ctx.floc(fn), '' if not bad else bad[0], note='%d designators' % len(cases))
+
+
 RULES = [
+    Rule('C10.R8', 'Segment.set decided by constant propagation: the named element / component changes, every other value stays', r8_set_changes_one_value, floor=1),
     Rule('C10.R1', 'copies own their mutable state; copied children have the copy as parent; tombstones not copied', r1_copy_ownership, floor=3),
     Rule('C10.R2', 'every children.append/insert is paired with parent = owner', r2_parent_child_pairing, floor=6),
     Rule('C10.R3', 'iterations over children skip tombstones; one tombstone marker', r3_tombstones, floor=10),
